@@ -343,8 +343,8 @@ Definition layout_report (O : oracle) (f0 : fs) (r0 : string) : list string :=
           show_lres (resolve_layout O f2); "-";
           show_bool (no_loss f0 f1); show_bool (lres_eqb (resolve_layout O f1) (resolve_layout O f0));
           show_bool (lres_eqb (resolve_layout O f2) (resolve_layout O f0));
-          show_bool (empty_inforce O (fst (resolve_layout O f1)) && on_disk r0 f1);
-          show_bool (empty_inforce O (fst (resolve_layout O f2)) && on_disk r0 f2);
+          show_bool (layout_stranded O r0 (fst (resolve_layout O f1)) f1);
+          show_bool (layout_stranded O r0 (fst (resolve_layout O f2)) f2);
           show_bool (no_loss f0 f2)] in
   line ["ops"; join ";" (map show_eff ops)] ::
   line ["init"; show_fs f0; show_lres (resolve_layout O f0)] ::
